@@ -308,6 +308,8 @@ pub fn eval_corrupt(c: &(PCase16, u16, u8)) -> CaseOutcome {
         line = text[..e - 1].matches('\n').count() + 1;
         let lstart = text[..e - 1].rfind('\n').map(|k| k + 1).unwrap_or(0);
         col = e - lstart;
+        // nothing, the file's final newline, or blank lines behind the last token: the place of the report stays the same
+        text.push_str(["", "\n", "  \n", "\n\n", " \n \n\t\n", "\r\n", "\n"][(*what as usize / 6) % 7]);
     } else {
         text.push_str(&stripped[..s]);
         text.push_str(bad);
@@ -344,6 +346,9 @@ pub fn eval_corrupt(c: &(PCase16, u16, u8)) -> CaseOutcome {
                 if !text.ends_with('\n') {
                     classes.push("c16/diag/on-last-line-without-newline".into());
                 }
+            }
+            if truncate && text.ends_with('\n') {
+                classes.push("c16/diag/end-of-input-behind-a-final-newline".into());
             }
             if line == 1 {
                 classes.push("c16/diag/on-first-line".into());
@@ -547,19 +552,26 @@ pub fn eval_undefined(c: &(crate::c14::Raw14, u8, u8)) -> CaseOutcome {
     // one jump to a label that does not exist, at a live position or at the end, indented
     let ind = [" ", "", "\t", "    ", "  \t "][*indent as usize % 5];
     // directly, or coming out of a macro (nesting depth 1 or 2): then the use site is what the message must cite
-    let via_macro = *pos % 3;
+    // (3: the jump stands in the outer body BEHIND a nested use that has ended; 4: inside a nested use that is followed by
+    // another nested use)
+    let via_macro = *pos % 5;
     let mn = ["jmp", "jz", "loop", "JNBE"][*indent as usize % 4];
     let stmt = match via_macro {
         0 => format!("{}{} nowhere_1", ind, mn),
         1 => format!("{}jq8(nowhere_1)", ind),
-        _ => format!("{}jq9(nowhere_1)", ind),
+        2 => format!("{}jq9(nowhere_1)", ind),
+        3 => format!("{}jq10(nowhere_1)", ind),
+        _ => format!("{}jq11(nowhere_1)", ind),
     };
     let mut at = if *pos % 2 == 0 { p.live_pos } else { lines.len() };
     if via_macro > 0 {
         let first_code = p.lines.iter().position(|l| !matches!(l.kind, crate::c14::LK::Data(_))).unwrap_or(0);
         lines.insert(first_code, format!("macro jq8(t) -> {} t <-", mn));
         lines.insert(first_code + 1, "macro jq9(u) -> nop jq8 (u) <-".to_string());
-        at += 2;
+        lines.insert(first_code + 2, "macro jqn(x) -> mov x, x <-".to_string());
+        lines.insert(first_code + 3, format!("macro jq10(u) -> jqn(ax) {} u <-", mn));
+        lines.insert(first_code + 4, "macro jq11(u) -> jqn(bx) jq8 (u) jqn(cx) <-".to_string());
+        at += 5;
     }
     lines.insert(at, stmt.clone());
     // one directly written jump in two is followed, at the end of the file, by a macro use that jumps to the same
@@ -801,7 +813,7 @@ pub fn run(ctx: &Ctx) {
         ctx.note("the driver's pure modules of the working tree do not compile stand-alone into the harness: the in-process parts (A), (B1), (B2) were skipped; the CLI parts decide");
     }
     ctx.require_class("c16/diag/on-first-line", if DRIVER_SRC { 10 } else { 0 });
-    for k in ["c16/map/implied-ret", "c16/map/macro-made", "c16/map/print", "c16/map/on-last-line", "c16/map/no-trailing-newline", "c16/diag/on-last-line-without-newline", "c16/diag/column>0", "c16/diag/unexpected-end-of-input", "c16/diag/invalid-character", "c16/diag/unexpected-token"] {
+    for k in ["c16/map/implied-ret", "c16/map/macro-made", "c16/map/print", "c16/map/on-last-line", "c16/map/no-trailing-newline", "c16/diag/on-last-line-without-newline", "c16/diag/end-of-input-behind-a-final-newline", "c16/diag/column>0", "c16/diag/unexpected-end-of-input", "c16/diag/invalid-character", "c16/diag/unexpected-token"] {
         ctx.require_class(k, if DRIVER_SRC { 50 } else { 0 });
     }
     if !cli_available() {
@@ -812,14 +824,14 @@ pub fn run(ctx: &Ctx) {
     run_cases(ctx, "c16-runtime", n_c, pcase_s, eval_runtime, |c| json!({"cli_source": render_program(&build16(c), &layout_of(c)).text, "interpreted": c.interpreted}));
     let n_s = ctx.tier.pick(300usize, 4_000usize);
     run_cases(ctx, "c16-semantic-cli", n_s, || (crate::c14::raw_s(), any::<u16>(), Just(true)), eval_semantic, |_| json!("semantic mutant, CLI"));
-    let n_d = ctx.tier.pick(150usize, 1_500usize);
+    let n_d = ctx.tier.pick(400usize, 4_000usize);
     run_cases(ctx, "c16-undefined", n_d, || (crate::c14::raw_s(), any::<u8>(), any::<u8>()), eval_undefined, |_| json!("jump to an undefined label"));
     early_undefined_family(ctx);
     failing_expansion_family(ctx);
     ctx.require_class("c16/undefined-label/used-twice", 20);
     ctx.require_class("c16/runtime/cited-line-longer-than-120-bytes", 5);
     ctx.require_class("c16/runtime/file-begins-with-blank-lines", 10);
-    for k in ["c16/runtime/print", "c16/runtime/about", "c16/runtime/int3", "c16/runtime/divide-error", "c16/runtime/unsupported-interrupt", "c16/runtime/no-trailing-newline", "c16/semantic/cli", "c16/undefined-label/last-line", "c16/undefined-label/macro-depth-1", "c16/undefined-label/macro-depth-2"] {
+    for k in ["c16/runtime/print", "c16/runtime/about", "c16/runtime/int3", "c16/runtime/divide-error", "c16/runtime/unsupported-interrupt", "c16/runtime/no-trailing-newline", "c16/semantic/cli", "c16/undefined-label/last-line", "c16/undefined-label/macro-depth-1", "c16/undefined-label/macro-depth-2", "c16/undefined-label/macro-depth-3", "c16/undefined-label/macro-depth-4"] {
         ctx.require_class(k, 15);
     }
 }
